@@ -667,10 +667,50 @@ def rows_multiset(out, drop=('_id',)):
     return sorted(res)
 
 
+def straddling_only(which, ts, L, R, lk, rk, la, ra, t, kw, a, b):
+    """For jaccard / cosine / dice: do two results differ ONLY in pairs whose raw similarity and its 4-decimal rounding
+    disagree about the comparison (known finding K5: such a pair is returned iff the position filter happens to let
+    it through, which depends on the per-chunk token order)?  Returns (bool, differing key pairs)."""
+    if which not in MEASURE_OF:
+        return False, []
+    lcol, rcol = kw.get('l_out_prefix', 'l_') + lk, kw.get('r_out_prefix', 'r_') + rk
+    pa, pb = set(out_pairs(a, lcol, rcol)), set(out_pairs(b, lcol, rcol))
+    diff = sorted(pa ^ pb, key=str)
+    if not diff:
+        return False, []
+    lval = {keyv(k): x for k, x in zip(L[lk], L[la])}
+    rval = {keyv(k): x for k, x in zip(R[rk], R[ra])}
+    op = OPS[kw.get('comp_op', '>=')]
+    for (x, y) in diff:
+        ls, rs = lval.get(x), rval.get(y)
+        if is_missing(ls) or is_missing(rs):
+            return False, diff
+        A, B = set(ts.tokens(ls, True)), set(ts.tokens(rs, True))
+        raw = SIMS[which](A, B)
+        if op(raw, t) == op(round(raw, 4), t):
+            return False, diff
+    return True, diff
+
+
+def straddling_corpus_case():
+    """a fixed input on which the jaccard join at 0.6667 returns (1, 10) with n_jobs = 1 and nothing with n_jobs = 2
+    (raw 2/3 < 0.6667 <= round(2/3, 4)): known finding K5"""
+    ts = TokSpec('ws', return_set=True)
+    L = pd.DataFrame({'id': [1], 'attr': pd.Series(['x s1 s2 s3 s4'], dtype=object)})
+    R = pd.DataFrame({'id': [10, 11, 12, 13, 14, 15],
+                      'attr': pd.Series(['y s1 s2 s3 s4', 's1 s2 s3 s4 z', 'x y', 'x y', 'x y', 'x y'], dtype=object)})
+    kw = {'comp_op': '>=', 'allow_empty': True, 'allow_missing': False, 'l_out_attrs': None, 'r_out_attrs': None,
+          'l_out_prefix': 'l_', 'r_out_prefix': 'r_', 'out_sim_score': True, 'n_jobs': 1}
+    return 'jaccard', ts, L, R, 'id', 'id', 'attr', 'attr', 0.6667, kw
+
+
 def oracle_schedule(rng, n, stats):
     v = []
-    for _ in range(n):
-        which, ts, L, R, lk, rk, la, ra, t, kw = gen_join_case(rng, stats, n_jobs_choices=(1,))
+    for it in range(n + 1):
+        if it == 0:
+            which, ts, L, R, lk, rk, la, ra, t, kw = straddling_corpus_case()
+        else:
+            which, ts, L, R, lk, rk, la, ra, t, kw = gen_join_case(rng, stats, n_jobs_choices=(1,))
         case = join_case(which, ts, L, R, lk, rk, la, ra, t, kw)
         try:
             base = call_join(which, L, R, lk, rk, la, ra, ts, t, kw)
@@ -680,10 +720,12 @@ def oracle_schedule(rng, n, stats):
         ref = rows_multiset(base)
         if list(base['_id']) != list(range(len(base))):
             v.append(viol('C10', '_id is not 0..n-1', case))
-        for nj in rng.sample([2, 3, 4, -1, -2, 50, 0, -40], 3):
+        for nj in ([2, 3, 6] if it == 0 else rng.sample([2, 3, 4, -1, -2, 50, 0, -40], 3)):
             o = call_join(which, L, R, lk, rk, la, ra, ts, t, dict(kw, n_jobs=nj))
             if rows_multiset(o) != ref:
-                v.append(viol('C10', '%s_join result depends on n_jobs (%d vs 1)' % (which, nj), dict(case, n_jobs=nj), len(ref), len(o)))
+                so, diff = straddling_only(which, ts, L, R, lk, rk, la, ra, t, kw, base, o)
+                v.append(viol('C10', '%s_join result depends on n_jobs (%d vs 1)%s' % (which, nj, ' — only in straddling pairs' if so else ''),
+                              dict(case, n_jobs=nj, straddling_only=so, differing_pairs=[list(map(str, d)) for d in diff[:5]]), len(ref), len(o)))
             if list(o['_id']) != list(range(len(o))):
                 v.append(viol('C10', '_id is not 0..n-1 with n_jobs=%d' % nj, dict(case, n_jobs=nj)))
         # permutation of rows, index relabelling, unrelated columns, repetition
@@ -696,7 +738,9 @@ def oracle_schedule(rng, n, stats):
         R2.insert(0, 'aa_unrelated', ['q'] * len(R2))
         o = call_join(which, L2, R2, lk, rk, la, ra, ts, t, kw)
         if rows_multiset(o) != ref:
-            v.append(viol('C10', '%s_join result depends on row order / index labels / unrelated columns' % which, case, len(ref), len(o)))
+            so, diff = straddling_only(which, ts, L, R, lk, rk, la, ra, t, kw, base, o)
+            v.append(viol('C10', '%s_join result depends on row order / index labels / unrelated columns%s' % (which, ' — only in straddling pairs' if so else ''),
+                          dict(case, straddling_only=so, differing_pairs=[list(map(str, d)) for d in diff[:5]]), len(ref), len(o)))
         o = call_join(which, L, R, lk, rk, la, ra, ts, t, kw)
         if rows_multiset(o) != ref:
             v.append(viol('C10', '%s_join result differs on repetition' % which, case))
